@@ -38,6 +38,26 @@ var c16DepUniverse = kit.EntUniverse{
 }
 
 func genC16(t *rapid.T) kit.History {
+	h := genC16History(t)
+	// the wrappers a refusal has to get through: a migration step reporting it on the step, a pre-commit action
+	// registered by a pre-commit action, and a running instance that received its data through a snapshot restore
+	for i := range h.Txs {
+		tx := &h.Txs[i]
+		l := fmt.Sprintf("w%d", i)
+		if !tx.System && !tx.Batch && rapid.IntRange(0, 9).Draw(t, l+"_viaMigration") == 0 {
+			tx.ViaMigration = true
+		}
+		if tx.LastInPreCommit && rapid.Bool().Draw(t, l+"_preCommitNested") {
+			tx.PreCommitNested = true
+		}
+		if i > 0 && rapid.IntRange(0, 14).Draw(t, l+"_freshInstance") == 0 {
+			tx.FreshInstance = true
+		}
+	}
+	return h
+}
+
+func genC16History(t *rapid.T) kit.History {
 	return kit.GenHistory(t, c16Cfg, 20, 3, true, 40, func(t *rapid.T, l string, m *kit.Model) kit.Op {
 		if rapid.IntRange(0, 3).Draw(t, l+"_dep") == 0 {
 			return kit.GenEntOpM(t, l, "deps", c16DepUniverse, m)
@@ -83,6 +103,15 @@ func runC16(h kit.History) kit.Result {
 			}
 			if tx.DeriveSystemFirst {
 				res.Classes = append(res.Classes, "ordinary-ctx-after-deriving-system-ctx")
+			}
+			if tx.ViaMigration {
+				res.Classes = append(res.Classes, "migration-step")
+			}
+			if tx.FreshInstance {
+				res.Classes = append(res.Classes, "after-restore-into-fresh-instance")
+			}
+			if tx.PreCommitNested {
+				res.Classes = append(res.Classes, "second-level-pre-commit-action")
 			}
 			c := trial.Apply(op, tx.System)
 			if len(c) > 0 {
